@@ -235,6 +235,8 @@ def one(item):
         ev['real'], nodes = convert(root, text)
         if item.get('positions', True):
             ev['nodes'] = nodes
+        # (the tree is read a second time after the later parses of the run, see main)
+        ev['_root'] = root
     except CallTimeout:
         ev['err'] = ev['errkind'] = 'Timeout'
     except oal.ParseException as e:
@@ -269,7 +271,28 @@ def main(plan_path, out_path):
     plan = json.load(open(plan_path))
     out = []
     for r in plan['runs']:
-        out.append([total(it) if it.get('total') else one(it) for it in r['items']])
+        evs = [total(it) if it.get('total') else one(it) for it in r['items']]
+        # a tree that was returned stays what it is: every tree of the run is read again after all the later texts (valid
+        # and invalid ones) have been parsed; where the second reading differs, it is the one that is judged
+        try:
+            oal.parse('select any later from instances of LATER where (selected.t == "a later text");\n')   # (also after a single item)
+        except Exception:
+            pass
+        for ev in evs:
+            root = ev.pop('_root', None)
+            if root is None:
+                continue
+            try:
+                real, nodes = convert(root, ev['text'])
+            except Exception as e:
+                ev['err'] = 'PY:%s on reading the tree again: %s' % (type(e).__name__, e)
+                ev['errkind'] = 'PY:' + type(e).__name__
+                continue
+            if real != ev['real']:
+                ev['real'] = real
+            if ev['nodes'] and nodes != ev['nodes']:
+                ev['nodes'] = nodes
+        out.append(evs)
     json.dump(out, open(out_path, 'w'))
 
 
